@@ -6,6 +6,7 @@ import (
 	"fmt"
 	"io"
 	"sort"
+	"time"
 
 	"github.com/syndtr/goleveldb/leveldb/cache"
 	"github.com/syndtr/goleveldb/leveldb/comparer"
@@ -38,6 +39,7 @@ type CompCase struct {
 	FBase     int    `json:"fbase,omitempty"`
 	UseCache  bool   `json:"cache,omitempty"`
 	UsePool   bool   `json:"pool,omitempty"`
+	NoStrict  bool   `json:"nostrict,omitempty"` // data blocks unverified: only index/meta/filter damage is tried
 	Moves     []Move `json:"moves,omitempty"`
 	Start     B      `json:"start,omitempty"`
 	Limit     B      `json:"limit,omitempty"`
@@ -525,6 +527,9 @@ func tableOptions(cc *CompCase) *opt.Options {
 	if cc.FBits > 0 {
 		o.Filter = filter.NewBloomFilter(cc.FBits)
 	}
+	if cc.NoStrict {
+		o.Strict = opt.NoStrict
+	}
 	return o
 }
 
@@ -701,8 +706,12 @@ func runTable(c *Case, out *RunOut) {
 
 	// ---- single byte alterations inside checksummed blocks
 	var regions [][2]int
-	for _, b := range dt.DataBlocks {
-		regions = append(regions, [2]int{b.Off, b.Off + b.Len + 5})
+	if !cc.NoStrict {
+		// without StrictBlockChecksum data blocks are not verified by design;
+		// index, meta-index and filter blocks always are
+		for _, b := range dt.DataBlocks {
+			regions = append(regions, [2]int{b.Off, b.Off + b.Len + 5})
+		}
 	}
 	regions = append(regions, [2]int{dt.Index.Off, dt.Index.Off + dt.Index.Len + 5}, [2]int{dt.MetaIndex.Off, dt.MetaIndex.Off + dt.MetaIndex.Len + 5})
 	if dt.Filter != nil {
@@ -744,52 +753,77 @@ func indexOrLen(s string, c byte) int {
 	return len(s)
 }
 
-// readDamagedTable: every result is an original pair or an error.
-func readDamagedTable(cc *CompCase, d []byte, keys [][]byte, vals map[string][]byte) (msg string) {
-	defer func() {
-		if r := recover(); r != nil {
-			msg = fmt.Sprintf("panic: reader panicked on damaged table: %v", r)
+// readDamagedTable: every result is an original pair or an error; never a
+// panic, never a hang (a panic inside a cache load callback can leave a lock
+// held: the reads run under a watchdog).
+func readDamagedTable(cc *CompCase, d []byte, keys [][]byte, vals map[string][]byte) string {
+	res := make(chan string, 1)
+	go func() {
+		var tr *table.Reader
+		var ch *cache.Cache
+		msg := func() (msg string) {
+			defer func() {
+				if r := recover(); r != nil {
+					msg = fmt.Sprintf("panic: reader panicked on damaged table: %v", r)
+				}
+			}()
+			var err error
+			tr, ch, err = openTable(cc, d)
+			if err != nil {
+				tr = nil
+				return ""
+			}
+			return readDamagedTableBody(tr, keys, vals)
+		}()
+		res <- msg
+		// cleanup may block for ever after a panic left a lock held
+		if tr != nil {
+			tr.Release()
 		}
-	}()
-	tr, ch, err := openTable(cc, d)
-	if err != nil {
-		return ""
-	}
-	defer func() {
-		tr.Release()
 		if ch != nil {
 			ch.Close(true)
 		}
 	}()
-	for _, k := range keys {
-		v, err := tr.Get(k, nil)
-		if err == nil && !bytes.Equal(v, vals[string(k)]) {
-			return fmt.Sprintf("wrong-value: Get(%q) returned %s instead of the stored value or an error", k, descVal(true, v))
-		}
-		if err == table.ErrNotFound {
-			return fmt.Sprintf("hidden: Get(%q) reports not-found for a stored key instead of the pair or a corruption error", k)
-		}
+	select {
+	case msg := <-res:
+		return msg
+	case <-time.After(20 * time.Second):
+		return "hang: a read of the damaged table did not return within 20 s"
 	}
-	it := tr.NewIterator(nil, nil)
-	defer it.Release()
-	var prev []byte
-	n := 0
-	for ok := it.First(); ok; ok = it.Next() {
-		k := it.Key()
-		want, known := vals[string(k)]
-		if !known {
-			return fmt.Sprintf("invented: iteration yielded key %q that was never stored", k)
+}
+
+func readDamagedTableBody(tr *table.Reader, keys [][]byte, vals map[string][]byte) (msg string) {
+	{
+		for _, k := range keys {
+			v, err := tr.Get(k, nil)
+			if err == nil && !bytes.Equal(v, vals[string(k)]) {
+				return fmt.Sprintf("wrong-value: Get(%q) returned %s instead of the stored value or an error", k, descVal(true, v))
+			}
+			if err == table.ErrNotFound {
+				return fmt.Sprintf("hidden: Get(%q) reports not-found for a stored key instead of the pair or a corruption error", k)
+			}
 		}
-		if !bytes.Equal(it.Value(), want) {
-			return fmt.Sprintf("misattributed: iteration yielded key %q with %s", k, descVal(true, it.Value()))
+		it := tr.NewIterator(nil, nil)
+		defer it.Release()
+		var prev []byte
+		n := 0
+		for ok := it.First(); ok; ok = it.Next() {
+			k := it.Key()
+			want, known := vals[string(k)]
+			if !known {
+				return fmt.Sprintf("invented: iteration yielded key %q that was never stored", k)
+			}
+			if !bytes.Equal(it.Value(), want) {
+				return fmt.Sprintf("misattributed: iteration yielded key %q with %s", k, descVal(true, it.Value()))
+			}
+			if n > 0 && bytes.Compare(prev, k) >= 0 {
+				return fmt.Sprintf("order: iteration yielded %q after %q", k, prev)
+			}
+			prev = append(prev[:0], k...)
+			n++
 		}
-		if n > 0 && bytes.Compare(prev, k) >= 0 {
-			return fmt.Sprintf("order: iteration yielded %q after %q", k, prev)
-		}
-		prev = append(prev[:0], k...)
-		n++
+		return ""
 	}
-	return ""
 }
 
 // ---------------------------------------------------------------- generators
@@ -867,6 +901,7 @@ func genComponent(prop string, seed uint64, g *gen, thorough bool) *Case {
 		}
 		cc.UseCache = r.p(0.5)
 		cc.UsePool = r.p(0.5)
+		cc.NoStrict = r.p(0.2)
 		if len(g.keys) > 0 {
 			op := Op{}
 			if r.p(0.5) {
